@@ -66,3 +66,20 @@ func (*RandReader) Read(p []byte) (int, error) {
 	}
 	return len(p), nil
 }
+
+//verif:stub math/rand.Int
+func RandInt() int { return 4 }
+
+//verif:stub math/rand.Intn
+func RandIntn(n int) int {
+	v := Int("rand.intn")
+	Assume(v >= 0 && v < n)
+	return v
+}
+
+//verif:stub math/rand.Int63n
+func RandInt63n(n int64) int64 {
+	v := I64("rand.int63n")
+	Assume(v >= 0 && v < n)
+	return v
+}
